@@ -149,9 +149,74 @@ def mutations(rng, data, known_numbers, wire_of, packable=()):
     yield ("random", bytes(rng.getrandbits(8) for _ in range(rng.randint(1, 12))), None)
 
 
+def observed(chk, inp, m, schema, ci):
+    """the observation line compared with the model; a decoded message that cannot even be observed as its declared
+    types (a list in an int field …) is an oracle failure, not a harness error"""
+    try:
+        return bpgen.obs_msg(m, schema, ci) + " | " + W.hexs(bytes(m))
+    except Exception as e:  # noqa
+        chk.fail("wrong-typed-field", inp, "decoded message cannot be observed as its declared types: %r" % e)
+        return "UNOBSERVABLE %r" % e
+
+
+def twin_repeatedness(chk, drv):
+    """decode HISTORY across classes: two classes with a same-numbered field of the same scalar type, singular in one and
+    repeated in the other, decoded one after the other in both orders (a fresh field number per order, so that nothing
+    an earlier decode may have left behind for that (number, type) is shared between the two orders): the singular
+    field must keep a LEN record as unknown, the repeated one must read it as a packed list — whoever decoded first"""
+    import struct
+    n = 40
+    for ty in ("int32", "sint64", "uint64", "bool", "fixed32", "sfixed64", "double", "float", "enum"):
+        for order in ("repeated-first", "singular-first"):
+            n += 1
+            schema = [bpgen.M("M0", [bpgen.F("x", n, ty)]), bpgen.M("M1", [bpgen.F("x", n, ty, repeated=True)])]
+            classes = bpgen.build_bp(schema)
+            sid = "tw%d" % n
+            if drv:
+                assert drv.ask1(bpgen.schema_line(sid, schema)) == "ok"
+            if ty in ("fixed32", "float"):
+                one, payload = struct.pack("<I", 7), struct.pack("<III", 1, 2, 3)
+                wt = 5
+            elif ty in ("sfixed64", "double"):
+                one, payload = struct.pack("<Q", 7), struct.pack("<QQ", 1, 2)
+                wt = 1
+            else:
+                one, payload, wt = b"\x01", b"\x01\x00\x01", 0
+            key = lambda w: betterproto.encode_varint(n << 3 | w)
+            plain = key(wt) + one
+            packed = key(2) + betterproto.encode_varint(len(payload)) + payload
+            seq = [(1, packed), (1, plain), (0, packed), (0, plain), (1, packed + plain)]
+            if order == "singular-first":
+                seq = [(0, plain), (0, packed), (1, packed), (1, plain), (0, plain + packed)]
+            lines, wants = [], []
+            for ci, data in seq:
+                inp = {"schema": [[f.line() for f in m.fields] for m in schema], "cls": ci, "bytes": data.hex(), "mutation": "twin:" + order,
+                       "history": [[c, d.hex()] for c, d in seq]}
+                chk.count("twin_repeatedness_decodes")
+                chk.case("twin %s %s %d %s" % (ty, order, ci, data.hex()), True, {"type": ty, "order": order, "cls": ci})
+                r = oracle(chk, inp, classes[ci], schema, classes, ci, data)
+                if ci == 0 and data == packed and not isinstance(r, Exception):
+                    if not (r == classes[0]()) or packed not in bytes(r):
+                        chk.fail("mismatch-alters-known-field", inp, "%r / %s" % (r, bytes(r).hex()))
+                if ci == 1 and data == packed and not isinstance(r, Exception) and len(r.x) != (3 if wt != 1 else 2):
+                    chk.fail("packed-list-not-decoded", inp, repr(r))
+                if drv:
+                    lines.append("PARSE %s %d %s" % (sid, ci, W.hexs(data)))
+                    if isinstance(r, Exception):
+                        wants.append("ERR")
+                    else:
+                        m3 = classes[ci]().parse(data)      # a fresh decode: the oracle's reads materialise defaults
+                        wants.append(observed(chk, inp, m3, schema, ci))
+            if drv:
+                for ln, rep, want in zip(lines, drv.ask(lines), wants):
+                    if (want == "ERR") != is_err(rep) or (want != "ERR" and rep != want):
+                        chk.disagree("parse-twin-history", ln, rep, want)
+
+
 def run(chk, drv):
     quick = chk.tier == "quick"
     rng = chk.rng
+    twin_repeatedness(chk, drv)
     chk.extra["rule"] = ("valid encodings of random values × {every truncation point, wire types 3/4/6/7 and field number 0 inserted at a record boundary, "
                          "a known field number with every non-fitting wire type, single-bit corruptions, random strings}. non-trivial = non-empty input; distinct by (schema, bytes)")
     nb = 40 if quick else 400
@@ -209,7 +274,7 @@ def run(chk, drv):
                         wants.append("ERR")
                     else:
                         m3 = cls().parse(mdata)
-                        wants.append(bpgen.obs_msg(m3, b.schema, ci) + " | " + W.hexs(bytes(m3)))
+                        wants.append(observed(chk, inp, m3, b.schema, ci))
         if drv and lines:
             for ln, rep, want in zip(lines, drv.ask(lines), wants):
                 if (want == "ERR") != is_err(rep) or (want != "ERR" and rep != want):
@@ -256,6 +321,23 @@ def replay(chk, rp):
         c = type(chk)(chk.pid, "quick", 0)
         kind = (rp.get("failure") or {}).get("kind", "")
         expect = "reject" if kind.startswith("malformed-input-accepted") else None
+        if "history" in inp:
+            # the decodes that came before, in order, on the freshly built classes (a fresh pair of classes has fresh metadata
+            # objects; state keyed by their VALUE, as in seed C17-c, is shared all the same)
+            for hc, hd in inp["history"]:
+                r = decode(classes[hc], bytes.fromhex(hd))
+                if not isinstance(r, Exception):
+                    bad = typed_ok(r, schema, classes, hc)
+                    try:
+                        if not bad:
+                            observed(c, inp, r, schema, hc)
+                    except Exception:
+                        pass
+                    if bad or c.oracle_failures:
+                        return True
+                if hc == 0 and not isinstance(r, Exception) and len(hd) > 6 and not (r == classes[0]()):
+                    return True
+            return False
         r = oracle(c, inp, classes[ci], schema, classes, ci, bytes.fromhex(inp["bytes"]), expect)
         if kind.startswith("mismatch") and not isinstance(r, Exception):
             rec = bytes.fromhex(inp["record"])
